@@ -17,7 +17,8 @@ LEVEL = "proof"
 THEOREMS = {"Proofs.Props.C20": ["MsPack.C20.open_call_sites", "MsPack.C20.open_modes_fixed"],
             "Proofs.Props.C09": ["MsPack.Szdd.C09_szdd_ledger_restored"],
             "Proofs.Props.C09Kwaj": ["MsPack.Kwaj.C09_kwaj_ledger_restored"],
-            "Proofs.Props.C09Oab": ["MsPack.Oab.C09_oab_ledger_restored"]}
+            "Proofs.Props.C09Oab": ["MsPack.Oab.C09_oab_ledger_restored"],
+            "Proofs.Props.C09Chm": ["MsPack.Chm.C09_chm_ledger_restored"], "Proofs.Props.C09Cab": ["MsPack.Cab.C09_cab_ledger_restored"]}
 ASSUMPTIONS = ["the theorem is about the syntactic inventory of open() call sites; all other clauses are checked dynamically by the instrumented system on enumerated scenarios and fault points",
                "buffer checks see heap allocations made through alloc(); stack buffers are covered by AddressSanitizer"]
 RULE = ("scenarios and single-fault variants as in C09 (all five formats; well-formed and malformed archives); every callback invocation is checked; non-trivial = a run that made at least one callback; "
